@@ -4,7 +4,7 @@
    comparative_discretise with abs_tolerance None (Gen_C08_discretise), the hit / miss / false-alarm / correct-negative maps
    and the final ratios of binary_impl.probability_of_detection / probability_of_false_detection (Gen_C09_binary),
    NaN-skipping sums, and numpy's trapezoid as a fold.  Only statements; proofs are `exact <lemma>` into coq/proofs/C14*.v. *)
-From V Require Import lib.Tree lib.C08_aux gen.Gen_C08_discretise gen.Gen_C09_binary model.C08 model.C09 model.C14 proofs.C14 proofs.C14_mw.
+From V Require Import lib.Tree lib.C08_aux gen.Gen_C08_discretise gen.Gen_C09_binary model.C08 model.C09 model.C14 proofs.C14 proofs.C14_mw proofs.C14_array.
 
 (* the discretised forecast: NaN stays NaN, otherwise 1 iff forecast >= t (equality is an event) *)
 Theorem C14_discretised_forecast : forall (t : Q) (f : xv),
@@ -87,6 +87,27 @@ Theorem C14_auc_is_mann_whitney : forall (cells : list triple) (ts : list Q),
   auc_at cells (map XFin ts) =x= mann_whitney (fvals 1 cells) (fvals 0 cells).
 Proof. exact auc_is_mann_whitney. Qed.
 Print Assumptions C14_auc_is_mann_whitney.
+
+(* ---- from lists to arrays: whenever the array model of roc_curve_data (model/C14.v, the function the correspondence check runs
+   against the implementation) returns, every POD / POFD cell is the list-level ROC point of the (forecast, observation, weight)
+   triples of its own group at its own threshold, and every AUC cell is the trapezoid fold of its POD / POFD along 'threshold';
+   so all theorems above apply to every output cell ---- *)
+Theorem C14_model_cells_weighted : forall fcst obs ts rd pd w ca pod pofd auc,
+  roc_curve_data_m fcst obs ts rd pd (Some w) ca = Ok [pod; pofd; auc] ->
+  exists R, ~ In "threshold" R /\
+    (forall e, lget pod e = pod_at (triples fcst obs ts R w e) (threshold_at ts e)) /\
+    (forall e, lget pofd e = pofd_at (triples fcst obs ts R w e) (threshold_at ts e)) /\
+    (forall e, lget auc e = auc_of (along pod "threshold" e) (along pofd "threshold" e)).
+Proof. exact roc_model_cells. Qed.
+Print Assumptions C14_model_cells_weighted.
+Theorem C14_model_cells_unweighted : forall fcst obs ts rd pd ca pod pofd auc,
+  roc_curve_data_m fcst obs ts rd pd None ca = Ok [pod; pofd; auc] ->
+  exists R, ~ In "threshold" R /\
+    (forall e, lget pod e =x= pod_at (triples1 fcst obs ts R e) (threshold_at ts e)) /\
+    (forall e, lget pofd e =x= pofd_at (triples1 fcst obs ts R e) (threshold_at ts e)) /\
+    (forall e, lget auc e = auc_of (along pod "threshold" e) (along pofd "threshold" e)).
+Proof. exact roc_model_cells_unweighted. Qed.
+Print Assumptions C14_model_cells_unweighted.
 
 (* ---- non-vacuity ---- *)
 Definition ex_cells : list triple :=
